@@ -292,7 +292,16 @@ def main(argv=None):
                     'spec': {k: s[k] for k in s if k not in (
                         'progress', 'build')}})
         elif s.get('variant') == 'tsan':
-            counters['tsan_report_blocks'] += len(r.get('san_reports') or [])
+            reps = r.get('san_reports') or []
+            counters['tsan_report_blocks'] += len(reps)
+            if reps and not any(v['key'].startswith('tsan.')
+                                for v in r['violations']):
+                violations.append({
+                    'key': 'tsan.unattributed', 'what': reps[0]['head'],
+                    'kind': s['kind'], 'idx': None, 'case': None,
+                    'detail': {'excerpt': reps[0]['excerpt']},
+                    'spec': {k: s[k] for k in s if k not in (
+                        'progress', 'build')}})
 
     # ---- verdict ---------------------------------------------------------
     replay_dir = os.path.join(VERIF, 'out', 'replay', prop)
